@@ -139,8 +139,20 @@ C17Laws(i) ==
    ELSE
      (IF RandomWalk THEN { <<"C17.state_solvable", Solvable(e.s.puzzle)>> } ELSE {}))
 
+(* 2x2 injection traces hold every (board, action) pair of the space: on the last line the cancellation law is
+   evaluated across episodes, on ALL pairs of recorded transitions S -a-> S', S' -Opp(a)-> S'' (not only on
+   consecutive events of one episode). *)
+C17Space(i) ==
+  IF i = NEv /\ Cfg.generator = "enum" /\ N = 2 THEN
+    LET steps == { j \in 2..NEv : IsStep(j) /\ BoardsOK(j) }
+        legalSteps == { j \in steps : Legal(Pre(j).puzzle, Ev(j).a) } IN
+    { <<"C17.opposite_moves_cancel",
+          \A j \in legalSteps : \A k \in steps :
+             (Pre(k).puzzle = Ev(j).s.puzzle /\ Ev(k).a = Opp(Ev(j).a)) => Ev(k).s.puzzle = Pre(j).puzzle>> }
+  ELSE {}
+
 C17(i) ==
-  { <<"C17.multiset_conserved", BoardsOK(i)>> } \cup (IF BoardsOK(i) THEN C17Laws(i) ELSE {})
+  { <<"C17.multiset_conserved", BoardsOK(i)>> } \cup (IF BoardsOK(i) THEN C17Laws(i) ELSE {}) \cup C17Space(i)
 
 (* A board that is not an arrangement of 0..N*N-1 makes the rule clauses meaningless (and unevaluable): each
    enabled rule group then reports the single clause <group>.puzzle_is_permutation instead. *)
